@@ -514,7 +514,7 @@ func (w *vWorld) makePlan() {
 		}
 		w.plan = append(w.plan, "read")
 	}
-	for i, k := 0, r.Intn(3); i < k; i++ {
+	for i, k := 0, []int{0, 1, 1, 2}[r.Intn(4)]; i < k; i++ {
 		w.plan = append(w.plan, "alloc")
 	}
 	w.plan = append(w.plan, "rel")
@@ -584,7 +584,7 @@ func (w *vWorld) planStep(kind string) string {
 		}
 		return fmt.Sprintf("read %d %d", id, n)
 	case "alloc":
-		if r.Intn(2) == 0 {
+		if r.Intn(3) == 0 {
 			nid := w.nextID
 			w.nextID++
 			return fmt.Sprintf("new %d %d", nid, []int{0, 1, c, 2 * c}[r.Intn(4)])
